@@ -569,5 +569,12 @@ def run(repo, check):
     check.run_rule(rule_r3, repo)
     check.run_rule(rule_r4, repo)
     check.run_rule(rule_r5, repo)
+    from sa.rules import c06
+    r6 = c06.rule_r3(repo)
+    r6.rule = 'C09.R6'
+    r6.title = 'the wiring state is re-initialised for every subset (shared with C06.R3)'
+    for f in r6.findings:
+        f.rule = 'C09.R6'
+    check.add(r6)
     check.assumptions = ['each primitive appends exactly one flat entry (C01.R3 / C02.R5), so emissions count flat entries',
                          'conservation of the values of a particular message is a runtime fact and is not decided']
